@@ -415,7 +415,7 @@ Section DescribesMain.
     match fs with
     | [] => []
     | (i, x) :: r =>
-        (if extractable i then
+        (if cextractable i then
            if f_anon i then snd (cwalk cfg x)
            else [(i, should_include cfg i (is_empty x) (is_value_zero x), canon cfg x)]
          else []) ++ cgofs r
@@ -540,15 +540,21 @@ Section DescribesMain.
 
   Lemma gofs_rel fs :
     Forall (fun iv => Pd (snd iv)) fs -> forallb (fun iv => descr cfg (snd iv)) fs = true ->
+    forallb (fun iv => promoted_ok cfg (fst iv) (snd iv)) fs = true ->
     items_rel (gofs fs) (cgofs fs).
   Proof.
-    intros H Hd. induction H as [|[i x] fs [Hx _] H IH]; [constructor|].
-    cbn [forallb snd] in Hd. apply andb_true_iff in Hd as [Hd1 Hd2]. cbn [snd] in Hx.
-    destruct (Hx Hd1) as [Hr Hi].
-    cbn [gofs cgofs]. apply Forall2_app; [|apply IH; exact Hd2].
-    destruct (extractable i); [|constructor].
-    destruct (f_anon i); [exact Hi|].
-    constructor; [split; [reflexivity | exact Hr] | constructor].
+    intros H Hd Hp. induction H as [|[i x] fs [Hx _] H IH]; [constructor|].
+    cbn [forallb snd fst] in Hd, Hp. apply andb_true_iff in Hd as [Hd1 Hd2]. apply andb_true_iff in Hp as [Hp1 Hp2].
+    cbn [snd] in Hx. destruct (Hx Hd1) as [Hr Hi].
+    cbn [gofs cgofs]. apply Forall2_app; [|apply IH; [exact Hd2 | exact Hp2]].
+    unfold promoted_ok in Hp1. unfold extractable, cextractable.
+    destruct (f_exported i); cbn [orb andb negb] in *.
+    - destruct (negb (omit_eqb (f_omit i) OAlways)); [|constructor].
+      destruct (f_anon i); [exact Hi|].
+      constructor; [split; [reflexivity | exact Hr] | constructor].
+    - destruct (f_anon i); cbn [andb negb orb] in *; [|constructor].
+      destruct (negb (omit_eqb (f_omit i) OAlways)); cbn [negb orb] in *; [|constructor].
+      destruct (snd (cwalk cfg x)); [constructor | discriminate Hp1].
   Qed.
 
   Lemma describes_all : forall v, Pd v.
@@ -588,8 +594,8 @@ Section DescribesMain.
     - (* VOPtr *) intros p [Hp _]. split; [|exact I]. intro Hd. split; [apply (Hp Hd) | constructor].
     - (* VIface *) intros p [Hp _]. split; [|exact I]. intro Hd. split; [apply (Hp Hd) | constructor].
     - (* VStruct *) intros sid fs H. split; [|exact I]. intro Hd. cbn [descr] in Hd.
-      apply andb_true_iff in Hd as [Hd1 Hd2].
-      pose proof (gofs_rel fs H Hd1) as Hrel.
+      apply andb_true_iff in Hd as [Hd1 Hd2]. apply andb_true_iff in Hd1 as [Hd1 Hd3].
+      pose proof (gofs_rel fs H Hd1 Hd3) as Hrel.
       rewrite items_struct, citems_struct. split; [|exact Hrel].
       rewrite plain_struct, canon_struct.
       destruct (find_record (c_records cfg) sid) as [r|] eqn:Hf.
@@ -827,10 +833,11 @@ Section Valid.
   Qed.
 
   Lemma S_media mt data :
-    utf8_valid mt = true -> validate_full_array_any rc AT_Media (blen data) data = true ->
+    utf8_valid mt = true -> media_type_valid mt = true ->
+    validate_full_array_any rc AT_Media (blen data) data = true ->
     scalar_step (EMedia mt data).
   Proof.
-    intros Hmt Hval r dt k ex ks stk d o Hp Hr Ho. eexists. unfold rstep. rewrite Hmt. cbn [negb].
+    intros Hmt Hmv Hval r dt k ex ks stk d o Hp Hr Ho. eexists. unfold rstep. rewrite Hmt, Hmv. cbn [negb andb].
     rewrite notify_ok by assumption. cbn [obind]. unfold call_current, call_fuel.
     positions r Hp;
       cbn [call_rule exec_prims exec_prim dispatch cur U E e_rule a_arrty a_count a_data array_args mask_value];
@@ -1126,7 +1133,8 @@ Section Valid.
   Lemma L_media d z mt data : vok rc cfg d (VMedia z mt data) = true -> ev_ok d (plain cfg (VMedia z mt data)).
   Proof.
     intro H. cbn [vok] in H. apply andb_true_iff in H as [H H3]. apply andb_true_iff in H as [H1 H2]. apply N.ltb_lt in H2.
-    apply scalar_ev; [|reflexivity]. apply S_media; [exact H1|].
+    apply andb_true_iff in H1 as [H1 H1v].
+    apply scalar_ev; [|reflexivity]. apply S_media; [exact H1|exact H1v|].
     unfold validate_full_array_any. change (is_stringlike_validated AT_Media) with false. cbv iota.
     change (array_bits AT_Media) with (Some (8 * 1)). cbv iota. rewrite H3.
     rewrite elem_byte_count_bytes by (unfold two64 in *; lia). rewrite N.mul_1_r, N.eqb_refl. reflexivity.
@@ -1816,6 +1824,122 @@ Lemma full_refuted_same_base_slices : ~ full_property.
 Proof. refute_with cfg_rec w_same_base. Qed.
 
 (* ---- the fragment that holds: no recursion support, [vok] and [descr] (no edge, no signalling float32 NaN) ---- *)
+
+(* open: two fields of the flattened struct go by one name (an embedded struct's field shadowed by
+   a field of the outer struct): the map gets the key twice and the validator refuses it.
+   [supported] (like [vok]) demands distinct emitted names; the property stated without that
+   demand is refuted here. *)
+Definition full_property_any_names : Prop :=
+  forall (rc : rcfg) (cfg : icfg) (root : option gval),
+    expected_version rc = 0 -> head_ok rc cfg = true -> records_ok cfg = true ->
+    match root with
+    | Some v => supported_any_names rc cfg 0 v = true
+                /\ (c_recursion cfg = false -> acyclic [] v = true)
+                /\ weight (iterate cfg root) <= max_object_count rc
+    | None => 1 <= max_object_count rc
+    end ->
+    snd (iterate_outcome cfg root) = true
+    /\ accepts_document rc (iterate cfg root) = true
+    /\ (if c_recursion cfg
+        then match root with
+             | Some v => acyclic [] v = true -> described_rec (iterate cfg root) = Some (canon cfg v)
+             | None => True
+             end
+        else read_doc (iterate cfg root) = Some (canon_root cfg root)).
+
+Lemma forallb_mono {A} (f g : A -> bool) l :
+  Forall (fun x => f x = true -> g x = true) l -> forallb f l = true -> forallb g l = true.
+Proof.
+  intro H. induction H as [|x l Hx H IH]; [reflexivity|]. cbn [forallb]. intro E.
+  apply andb_true_iff in E as [E1 E2]. rewrite (Hx E1), (IH E2). reflexivity.
+Qed.
+
+(* the demand is the only difference: every [supported] value is [supported_any_names] *)
+Lemma supported_any_names_weaker rc cfg :
+  forall v d, supported rc cfg d v = true -> supported_any_names rc cfg d v = true.
+Proof.
+  apply (gval_ind' (fun v => forall d, supported rc cfg d v = true -> supported_any_names rc cfg d v = true));
+    try (intros; assumption).
+  - (* VSlice *) intros a es H d E. cbn [supported supported_any_names] in *.
+    apply andb_true_iff in E as [E1 E2]. rewrite E1. cbn [andb].
+    apply (forallb_mono (supported rc cfg (d + 1))); [|exact E2].
+    eapply Forall_impl; [|exact H]. intros x Hx. apply Hx.
+  - (* VArray *) intros es H d E. cbn [supported supported_any_names] in *.
+    apply andb_true_iff in E as [E1 E2]. rewrite E1. cbn [andb].
+    apply (forallb_mono (supported rc cfg (d + 1))); [|exact E2].
+    eapply Forall_impl; [|exact H]. intros x Hx. apply Hx.
+  - (* VMap *) intros a kvs H d E. cbn [supported supported_any_names] in *.
+    apply andb_true_iff in E as [E E3]. apply andb_true_iff in E as [E1 E2]. rewrite E1, E3. cbn [andb].
+    rewrite andb_true_r.
+    apply (forallb_mono (fun kv => is_some (key_of (fst kv)) && supported rc cfg (d + 1) (fst kv) && supported rc cfg (d + 1) (snd kv))); [|exact E2].
+    eapply Forall_impl; [|exact H]. intros kv [Hk Hv] Ek.
+    apply andb_true_iff in Ek as [Ek Ev]. apply andb_true_iff in Ek as [Ek0 Ek].
+    rewrite Ek0, (Hk _ Ek), (Hv _ Ev). reflexivity.
+  - (* VPtr *) intros a p H d E. cbn [supported supported_any_names] in *. apply H. exact E.
+  - (* VOPtr *) intros p H d E. cbn [supported supported_any_names] in *. apply H. exact E.
+  - (* VIface *) intros p H d E. cbn [supported supported_any_names] in *. apply H. exact E.
+  - (* VStruct *) intros sid fs H d E. cbn [supported supported_any_names] in *.
+    apply andb_true_iff in E as [E E3]. apply andb_true_iff in E as [E1 E2]. rewrite E1. cbn [andb].
+    apply andb_true_iff. split.
+    + apply (forallb_mono (fun iv => supported rc cfg (d + 1) (snd iv))); [|exact E2].
+      eapply Forall_impl; [|exact H]. intros iv Hx. apply Hx.
+    + destruct (find_record (c_records cfg) sid); [exact E3|].
+      apply andb_true_iff in E3 as [E3 _]. exact E3.
+  - (* VNode *) intros x ch Hx Hch d E. cbn [supported supported_any_names] in *.
+    apply andb_true_iff in E as [E E3]. apply andb_true_iff in E as [E1 E2]. rewrite E1, (Hx _ E2). cbn [andb].
+    destruct ch; try reflexivity.
+    specialize (Hch d). cbn [supported supported_any_names] in Hch. rewrite E1 in Hch. cbn [andb] in Hch.
+    apply Hch. exact E3.
+  - (* VEdge *) intros a b c Ha Hb Hc d E. cbn [supported supported_any_names] in *.
+    repeat (apply andb_true_iff in E as [E ?]).
+    rewrite E, (Ha _ ltac:(eassumption)), (Hb _ ltac:(eassumption)), (Hc _ ltac:(eassumption)).
+    repeat match goal with H : _ = true |- _ => rewrite H end. reflexivity.
+Qed.
+
+(* ... so the statement without the demand is the stronger one *)
+Lemma full_property_any_names_stronger : full_property_any_names -> full_property.
+Proof.
+  intros F rc cfg root Hv Hh Hr Hroot. apply (F rc cfg root Hv Hh Hr).
+  destruct root as [v|]; [|exact Hroot]. destruct Hroot as [Hs Hrest].
+  split; [apply supported_any_names_weaker; exact Hs | exact Hrest].
+Qed.
+
+Definition f_emb (n : bytes) (exported : bool) : finfo := mkF n exported true ODefault 9223372036854775807%Z.
+(* struct{ A int; Inner } with type Inner struct{ A int }, A = 1 and Inner.A = 2 *)
+Definition w_shadow : gval :=
+  VStruct 1 [(f_a, VInt 1); (f_emb [73; 110; 110; 101; 114] true, VStruct 2 [(f_a, VInt 2)])].
+Lemma shadow_rejected :
+  supported_any_names default_rcfg cfg_plain 0 w_shadow = true
+  /\ supported default_rcfg cfg_plain 0 w_shadow = false
+  /\ iterate cfg_plain (Some w_shadow)
+     = [EBeginDoc; EVersion 0; EMap; EStringArray AT_String [97]; EInt 1; EStringArray AT_String [97]; EInt 2; EEnd; EEndDoc]
+  /\ rejected_at default_rcfg (iterate cfg_plain (Some w_shadow)) = Some 5
+  /\ accepts_document default_rcfg (iterate cfg_plain (Some w_shadow)) = false.
+Proof. repeat split; vm_compute; reflexivity. Qed.
+Lemma full_refuted_duplicate_flattened_name : ~ full_property_any_names.
+Proof.
+  intro F.
+  destruct (F default_rcfg cfg_plain (Some w_shadow) eq_refl eq_refl eq_refl) as [_ [Ha _]].
+  - split; [vm_compute; reflexivity | split; [intros _; vm_compute; reflexivity | vm_compute; congruence]].
+  - vm_compute in Ha. discriminate Ha.
+Qed.
+
+(* open: struct{ low; Z int } with type low struct{ P int }: Go promotes P, extractFields drops the
+   embedded struct because its type name is lower-case; the events are valid but P is missing *)
+Definition f_p : finfo := mkF [80] true false ODefault 9223372036854775807%Z.
+Definition f_z : finfo := mkF [90] true false ODefault 9223372036854775807%Z.
+Definition w_hidden : gval :=
+  VStruct 1 [(f_emb [108; 111; 119] false, VStruct 2 [(f_p, VInt 1)]); (f_z, VInt 3)].
+Lemma hidden_promoted_dropped :
+  supported default_rcfg cfg_plain 0 w_hidden = true
+  /\ descr cfg_plain w_hidden = false
+  /\ iterate cfg_plain (Some w_hidden) = [EBeginDoc; EVersion 0; EMap; EStringArray AT_String [122]; EInt 3; EEnd; EEndDoc]
+  /\ accepts_document default_rcfg (iterate cfg_plain (Some w_hidden)) = true
+  /\ read_doc (iterate cfg_plain (Some w_hidden)) = Some (DMap [(DString [122], DScalar (EInt 3))])
+  /\ canon cfg_plain w_hidden = DMap [(DString [112], DScalar (EInt 1)); (DString [122], DScalar (EInt 3))].
+Proof. repeat split; vm_compute; reflexivity. Qed.
+Lemma full_refuted_promoted_field_dropped : ~ full_property.
+Proof. refute_with cfg_plain w_hidden. Qed.
 
 Lemma weight_iterate_plain cfg v :
   c_recursion cfg = false ->
